@@ -72,6 +72,12 @@ def configs(tier):
             for route in ('entry', 'delay'):
                 if tier == 'thorough' or route == 'entry' or sp['name'].startswith('D3'):
                     out.append(dict(spec=sp, grid='nu5', safe=False, route=route, bound=2))
+            # the same time values as a strided view / a table column (gaps hold other plausible times), uneven and even grid
+            if dv.get('type') == 'fixed' and dv.get('delay') in (0.3, 0.6):
+                out.append(dict(spec=sp, grid='nu5', safe=False, route='delay', bound=2, times_repr='strided'))
+                out.append(dict(spec=sp, grid='nu5', safe=False, route='entry', bound=2, times_repr='column'))
+                out.append(dict(spec=sp, grid='u5', safe=False, route='delayvol', bound=2, times_repr='strided'))
+                out.append(dict(spec=sp, grid='u5', safe=False, route='volume', bound=2, times_repr='column'))
             # simulators without delay support: both parts at the firing time
             out.append(dict(spec=sp, grid='u5', safe=False, route='ssa', bound=2))
             out.append(dict(spec=sp, grid='u5', safe=False, route='volume', bound=2))
@@ -128,6 +134,7 @@ def run_config(c, cfg):
         impl.spec = sp
     else:
         impl = e1.Impl(sp, cfg['safe'])
+    impl.times_repr = cfg.get('times_repr', 'plain')
     route = cfg['route']
     mode = 'stochvol' if route in ('volume', 'delayvol') else 'stoch'
     net = RS.Net(sp, mode, cfg['safe'])
@@ -149,7 +156,7 @@ def run_config(c, cfg):
         if route == 'delayvol':
             from bioscrape.simulator import py_simulate_model
             with Stream(us) as st:
-                res = py_simulate_model(np.array(times), Model=impl.model, stochastic=True, delay=True, volume=2.0, safe=cfg['safe'],
+                res = py_simulate_model(impl.grid(times), Model=impl.model, stochastic=True, delay=True, volume=2.0, safe=cfg['safe'],
                                         return_dataframe=False)
             fq = res.py_get_delay_queue()
             nqt = fq.py_get_next_queue_time()
@@ -162,7 +169,7 @@ def run_config(c, cfg):
         if route == 'entry':
             from bioscrape.simulator import py_simulate_model
             with Stream(us) as st:
-                res = py_simulate_model(np.array(times), Model=impl.model, stochastic=True, delay=True, safe=cfg['safe'],
+                res = py_simulate_model(impl.grid(times), Model=impl.model, stochastic=True, delay=True, safe=cfg['safe'],
                                         return_dataframe=False)
             fq = res.py_get_delay_queue()
             nqt = fq.py_get_next_queue_time()
